@@ -128,7 +128,8 @@ def geo (c : PageCtx) : Oracle G where
   collThrough := fun gc => gc.last.collThrough
   overC := fun g gc => c.over g.bs (gc.last.contentY + gc.last.height)
   overB := fun g gc => c.over g.bs (gc.last.borderBoxY + gc.last.borderHeight)
-  bump := fun g gc => { g with bs := g.bs + gc.last.pb + gc.last.bb }
+  -- the second layout starts from the PositionY the first layout left on the (shared) source box
+  bump := fun g gc => { g with bs := g.bs + gc.last.pb + gc.last.bb, y := gc.last.y, yIter := gc.last.y }
   afterKid := fun g gc =>
     let y := if gc.last.collThrough then g.y else gc.last.borderBoxY + gc.last.borderHeight
     -- `thisBoxAdjoiningMargins` is a pointer to the slice the first child appends its own top margins to
